@@ -125,6 +125,29 @@ def c06_roundtrip(table, reg, tier, seed):
             if not _eq(expect, held):
                 violations.append({'obligation': f'C06.standin.{cls}.same_as_computed', 'kind': 'extra', 'check': 'c06_roundtrip',
                                    'what': f'{cls}: the value held after save differs from the run result', 'witness': repr(v)[:300], 'case': i})
+        # a recomputed result REPLACES the stored one: a shorter / smaller value over a longer one (same location, no delete in between)
+        over = [('ListOfNumpyData', [np.array(i) for i in range(5)], [np.array(10 + i) for i in range(3)]),
+                ('ListOfNumpyData', [np.arange(3)] * 12, [np.arange(2)]),
+                ('GeneratedData', list(range(8)), [1]), ('GeneratedDataLazy', list(range(8)), ['x', 'y']),
+                ('JSONData', {'k': list(range(50))}, {'k': 1}), ('NumpyData', np.arange(100), np.arange(2))]
+        for j, (cls, first, second) in enumerate(over):
+            X = getattr(D, cls)
+            base = tmp / f'over{j}'
+            for v in (first, second):
+                d = X()
+                d.init_persistence(base, 'k')
+                d.set_value(iter(v) if cls.startswith('Generated') else v)
+                d.save()
+            tried += 1
+            d2 = X()
+            d2.init_persistence(base, 'k')
+            loaded = d2.load(None)
+            if cls == 'GeneratedDataLazy':
+                loaded = list(loaded())
+            if not _eq(second, loaded):
+                violations.append({'obligation': f'C06.standin.{cls}.overwrite', 'kind': 'extra', 'check': 'c06_roundtrip',
+                                   'what': f'{cls}: after a recomputation stored over an earlier, larger result, a later load gives neither exactly the new value',
+                                   'witness': repr((first, second))[:300], 'loaded': repr(loaded)[:300], 'case': f'over{j}'})
         # directory data: publish, reload, overwrite with a smaller tree
         for rep in range(2):
             base = tmp / f'dir{rep}'
@@ -327,6 +350,23 @@ def c14_caches(table, reg, tier, seed):
     import logging
     logging.getLogger('cache').disabled = True
     try:
+        # InMemoryCache (and a sub-cache of it) against a dictionary model: None is a value like any other
+        for label, cache in (('mem', C.InMemoryCache()), ('mem.sub', C.InMemoryCache().subcache('s'))):
+            model = {}
+            for step in range(40 if tier == 'quick' else 400):
+                k = r.choice(['a', 'b', 'c'])
+                v = r.choice([None, 0, '', [], 1, 'x', None])
+                force = r.random() < 0.2
+                calls = []
+                tried += 1
+                got = cache.get_or_compute(k, lambda v=v: calls.append(1) or v, force=force)
+                want_calls = 1 if (k not in model or force) else 0
+                if want_calls:
+                    model[k] = v
+                if len(calls) != want_calls or got != model[k] or type(got) is not type(model[k]):
+                    viol(f'{label}.model', f'InMemoryCache step {step}: key {k!r} (force={force}) computed {len(calls)} times, returned {got!r}; '
+                         f'the dictionary model computes {want_calls} times and returns {model[k]!r}', (k, v, force))
+                    break
         keys = ['', 'a', 'b', 'ab', 'café', 'café', 'k' * 300, ' ', 'a/b', '{"x": 1}', 'A', ' ', '0', 'key\n']
         jvals = [v for v in _json_values(r, 10 if tier == 'quick' else 100)]
         makers = [('json', lambda d: C.JsonCache(d), jvals, _eq),
